@@ -163,3 +163,42 @@ Fixpoint bad_idx {A} (ok : A -> bool) (l : list A) (i : nat) : list nat :=
   | [] => []
   | x :: r => if ok x then bad_idx ok r (S i) else i :: bad_idx ok r (S i)
   end.
+
+(** ** Branch signatures for the designed (always-run) cases.
+    For each piecewise closed form, the position of a probe relative to every threshold that the
+    corresponding [*_code] model branches on, computed from the SAME expressions the model uses
+    (for L1MinusL2Norm: the model's own [l1l2_case]).  The harness asserts that the designed set
+    realises every reachable signature (strictly inside each branch, on each boundary, outside),
+    so the set stays in sync with the model. *)
+Definition cmp3 (a t : Qc) : nat := if Qc_eqb a t then 1 else if Qc_leb a t then 0 else 2.
+Definition sig_of (ds : list nat) : nat := fold_left (fun acc d => acc * 4 + d) ds 0.
+
+Definition branch_sig (unit : nat) (ps xs : list Qc) : nat :=
+  let p0 := nthq ps 0 in let p1 := nthq ps 1 in
+  let x0 := nthq xs 0 in let x1 := nthq xs 1 in let x2 := nthq xs 2 in
+  let z := 0%Qc in
+  sig_of
+  match unit with
+  | 0 => (* soft / block soft threshold (L1, L2, L21): relu(nv - lam), nv =? 0 *)
+      [cmp3 x0 p0; cmp3 x0 z]
+  | 1 => (* L0: code threshold lam <=? nv and true threshold 2 lam <=? nv^2 *)
+      [cmp3 x0 p0; cmp3 (x0 * x0)%Qc (k2 * p0)%Qc]
+  | 2 => (* Huber: kmax a (delta (1 + lam)) *)
+      [cmp3 x0 (p0 * (1 + p1))%Qc; cmp3 x0 z]
+  | 3 => (* L2 ball: nv <=? r, 0 <? nv *)
+      [cmp3 x0 p0; cmp3 x0 z]
+  | 4 => (* SetDistance: lam <=? d *)
+      [cmp3 x0 p0; cmp3 x0 z]
+  | 5 => (* singular value thresholding: kmax 0 (s - lam) *)
+      [cmp3 x0 p0; cmp3 x0 z]
+  | 6 => (* SquaredL2AbsLoss: 0 <? r ; weight w = 0 (alpha = 0) *)
+      [cmp3 x0 z; cmp3 x1 z]
+  | 7 => (* SquaredL2SquaredAbsLoss: 0 <? al, 0 <? beta, and al*y vs 1 (number of roots) *)
+      let al := sqabs_alpha p0 x0 p1 in
+      [cmp3 al z; cmp3 x1 z; cmp3 (al * x2)%Qc 1%Qc]
+  | 8 => (* L1MinusL2Norm: the model's case analysis and the position of max|v| in the windows *)
+      [l1l2_case p0 p1 x0; cmp3 x0 p1; cmp3 x0 ((1 - p0) * p1)%Qc; cmp3 x0 z]
+  | _ => []
+  end.
+Definition probe := (nat * list Qc * list Qc)%type.
+Definition probe_sig (pr : probe) : nat := let '(u, ps, xs) := pr in branch_sig u ps xs.
